@@ -41,5 +41,8 @@ def corpus(seed, n):
     for i, (N, dt) in enumerate(grid):
         f = procs.FUNCS[i % 2]
         out.append(dict(func=f, N=N, dt=dt, mode=['vacuum', 'temperature', 'pressure'][i % 3], comp_type=['weight', 'molar'][i % 2], A=0.01, m0=5.0, program=(i % 4 == 1 and 'non_isothermal' in f)))
+    # integer-valued inputs (333 rather than 333.0, 12 rather than 12.0): a series kept in an integer container would truncate
+    for i, f in enumerate(procs.FUNCS):
+        out.insert(2 * i, dict(func=f, N=3, dt=0.2, mode=['vacuum', 'temperature', 'pressure'][i % 3], comp_type='weight', A=0.05, m0=12, T0=333, x0=0.3, Tp=273, pp=1, curves='one', Tc=333.15))
     if n > len(out): out += procs.corpus(seed, min(n - len(out), 16))
     return out[:max(n, 4)]
